@@ -49,7 +49,8 @@ def one(F):
     return Param("const", np.ones(F, dtype=complex), 1)
 
 
-def offgrid_vector(rng, freqs, mag=1.0):
+def offgrid_vector(rng, freqs, mag=1.0, knots=(3, 8), rough=0.0,
+                   margin=0.15):
     """vector parameter given on its OWN frequency grid (3..7 knots covering
     the calibration band with margin) whose values follow a first-order
     rational law in frequency, which the library's rational-function
@@ -57,8 +58,8 @@ def offgrid_vector(rng, freqs, mag=1.0):
     frequencies (the truth the measurements are generated from)"""
     lo, hi = float(freqs[0]), float(freqs[-1])
     span = max(hi - lo, 0.1 * hi)
-    k = int(rng.integers(3, 8))
-    pf = np.linspace(lo - 0.15 * span, hi + 0.15 * span, k)
+    k = int(rng.integers(knots[0], knots[1]))
+    pf = np.linspace(max(lo - margin * span, 0.05 * lo), hi + margin * span, k)
     pf = pf + rng.uniform(-0.02, 0.02, k) * span / k
     pf = np.maximum(pf, 1.0)
     a = (rng.standard_normal() + 1j * rng.standard_normal()) * 0.6 * mag
@@ -71,6 +72,13 @@ def offgrid_vector(rng, freqs, mag=1.0):
     prm = Param("vector", law(freqs).astype(complex))
     prm.pfreqs = pf
     prm.pvalues = law(pf).astype(complex)
+    if rough:
+        # knot values that follow no low-order rational law: what the
+        # library interpolates between them then depends on which knots it
+        # uses (only differential / metamorphic checks can use such a
+        # parameter: .values is no longer the exact truth)
+        prm.pvalues = prm.pvalues + rough * (
+            rng.standard_normal(k) + 1j * rng.standard_normal(k))
     return prm
 
 
@@ -209,8 +217,12 @@ class Scenario:
     def rparam(self, mag=1.0, allow_const=True):
         """random parameter; with self.offgrid, some are vectors on their own
         frequency grid"""
-        if getattr(self, "offgrid", False) and self.rng.random() < 0.3:
-            return offgrid_vector(self.rng, self.freqs, mag)
+        if getattr(self, "offgrid", False) and \
+                self.rng.random() < getattr(self, "offgrid_prob", 0.3):
+            return offgrid_vector(self.rng, self.freqs, mag,
+                                  getattr(self, "offgrid_knots", (3, 8)),
+                                  getattr(self, "offgrid_rough", 0.0),
+                                  getattr(self, "offgrid_margin", 0.15))
         return rand_param(self.rng, self.F, mag, allow_const)
 
     def add_reflect(self, ports, params=None):
